@@ -209,7 +209,7 @@ func (r *runner) startInc() bool {
 	r.exp = exp
 	host := &xh.Host{ID: sid, Ext: &xh.Ext{S: r.store}}
 	done := make(chan error, 1)
-	go func() { done <- exp.Start(context.Background(), host) }()
+	go func() { done <- startC(func(sc context.Context) error { return exp.Start(sc, host) }) }()
 	deadline := time.Now().Add(5 * time.Second)
 	for {
 		select {
@@ -565,4 +565,12 @@ func main() {
 	}
 	w.Flush()
 	out.Close()
+}
+
+// startC calls a component's Start with a context that is cancelled as soon as Start has returned: component.Component
+// says that context "will be cancelled soon", so nothing that has to outlive Start may depend on it.
+func startC(start func(context.Context) error) error {
+	ctx, cancel := context.WithCancel(context.Background())
+	defer cancel()
+	return start(ctx)
 }
